@@ -502,6 +502,27 @@ static void gen_strto(rng &r, bool th)
                     }
             }
         }
+    // (3b) ordinary numbers of every magnitude (0..70 bits) with random dress
+    for (int f = 0; f < 6; f++)
+        for (int bi = 0; bi < 36; bi++)
+            for (int k = 0; k < (th ? 100 : 24); k++)
+            {
+                int base = BASES[bi], eb = base;
+                std::string pre;
+                if (base == 0)
+                {
+                    int q = (int)r.below(3);
+                    eb = q == 0 ? 10 : q == 1 ? 8 : 16;
+                    pre = q == 1 ? "0" : q == 2 ? (r.chance(50) ? "0x" : "0X") : "";
+                }
+                else if (base == 16 && r.chance(60))
+                    pre = r.chance(50) ? "0x" : "0X";
+                unsigned bits = (unsigned)r.below(71);
+                u128 m = (((u128)r.next() << 64) | r.next());
+                m = bits == 0 ? 0 : m >> (128 - bits);
+                if (eb == 10 && base == 0 && m == 0) pre = ""; // "0" alone is octal zero, still fine
+                st(FNS[f], base, r.pick(SPACES) + r.pick(SIGNS) + pre + render(m, eb, (int)r.below(3), r) + tail_for(eb, r));
+            }
     // (4) every byte value against every base's alphabet: alone and inside a number
     for (int bi = 0; bi < 36; bi++)
         for (int c = 1; c < 256; c++)
